@@ -88,57 +88,57 @@ theorem C06_cook_of_parse (md : Method) (m : MethodSpec)
   simp [cookMethod, hp, ha, hps]
 
 /-- the whole property for one call: exactly one request, and it is the one the directive describes -/
-theorem C06_request (hs : List (String × String)) (anyCtx : Bool) (m : MethodSpec)
+theorem C06_request (hs : List (String × String)) (m : MethodSpec)
     (c : Cooked) (d : PathDir) (subs : List PathSub) (args : Args)
     (ok : MethodOK m) (aok : ArgsOK m args) (h : CookedFor m c d subs) :
-    ∃ r, send (planOf hs anyCtx m.name c d subs) args = .sent r ∧
+    ∃ r, send (planOf hs m.name c d subs) args = .sent r ∧
       r.verb = m.verb.upper ∧ r.path = specPath m args ∧ r.query.getD [] = specQuery m args ∧
       r.body = specBody m ∧ (∀ k, getKV r.headers k = specHeader hs m.verb k) ∧ r.ctx = specCtx m args := by
-  obtain ⟨r, h1, h2, h3, h4, h5, h6, h7⟩ := send_eq_spec hs anyCtx m c d subs args ok aok h
+  obtain ⟨r, h1, h2, h3, h4, h5, h6, h7⟩ := send_eq_spec hs m c d subs args ok aok h
   exact ⟨r, h1, h2, h3, h4, h5, fun k => by rw [h6]; exact (C06_headers hs m.verb).1 k, h7⟩
 
 /-- headline: GET/DELETE — the query handed to `Encode` holds exactly the non-path scalar arguments,
     the struct fields and the map entries, under alias-or-name, nil pointers omitted, a key set twice
     keeping the later value; for every parameter list and every argument vector of region WF -/
-theorem C06_query (hs : List (String × String)) (anyCtx : Bool) (m : MethodSpec)
+theorem C06_query (hs : List (String × String)) (m : MethodSpec)
     (c : Cooked) (d : PathDir) (subs : List PathSub) (args : Args)
     (ok : MethodOK m) (aok : ArgsOK m args) (h : CookedFor m c d subs) (hv : m.verb.hasBody = false) :
-    ∃ r, send (planOf hs anyCtx m.name c d subs) args = .sent r ∧
+    ∃ r, send (planOf hs m.name c d subs) args = .sent r ∧
       r.query.getD [] = setAll [] (plainBindings m args m.params ++ dictBindings args m.params) ∧
       r.body = none := by
-  obtain ⟨r, h1, _, _, h4, h5, _, _⟩ := send_eq_spec hs anyCtx m c d subs args ok aok h
+  obtain ⟨r, h1, _, _, h4, h5, _, _⟩ := send_eq_spec hs m c d subs args ok aok h
   refine ⟨r, h1, ?_, ?_⟩
   · rw [h4]; simp [specQuery, hv]
   · rw [h5]; simp [specBody, hv]
 
 /-- every `{name}` of the path is replaced by the text of the argument it stands for (through the
     alias directive), all other characters of the path are kept -/
-theorem C06_placeholders (hs : List (String × String)) (anyCtx : Bool) (m : MethodSpec)
+theorem C06_placeholders (hs : List (String × String)) (m : MethodSpec)
     (c : Cooked) (d : PathDir) (subs : List PathSub) (args : Args)
     (ok : MethodOK m) (aok : ArgsOK m args) (h : CookedFor m c d subs) :
-    ∃ r, send (planOf hs anyCtx m.name c d subs) args = .sent r ∧
+    ∃ r, send (planOf hs m.name c d subs) args = .sent r ∧
       r.path = fill (fun n => argText args (resolve m (String.ofList n))) (tokenize m.path) := by
-  obtain ⟨r, h1, _, h3, _⟩ := send_eq_spec hs anyCtx m c d subs args ok aok h
+  obtain ⟨r, h1, _, h3, _⟩ := send_eq_spec hs m c d subs args ok aok h
   exact ⟨r, h1, by rw [h3]; rfl⟩
 
 /-- POST/PUT/PATCH: the body is `json.Marshal` of the struct argument and no query is written -/
-theorem C06_body (hs : List (String × String)) (anyCtx : Bool) (m : MethodSpec)
+theorem C06_body (hs : List (String × String)) (m : MethodSpec)
     (c : Cooked) (d : PathDir) (subs : List PathSub) (args : Args)
     (ok : MethodOK m) (aok : ArgsOK m args) (h : CookedFor m c d subs) (hv : m.verb.hasBody = true) :
-    ∃ r, send (planOf hs anyCtx m.name c d subs) args = .sent r ∧
+    ∃ r, send (planOf hs m.name c d subs) args = .sent r ∧
       r.body = (m.params.find? isStructParam).map (·.name) ∧ r.query.getD [] = [] := by
-  obtain ⟨r, h1, _, _, h4, h5, _, _⟩ := send_eq_spec hs anyCtx m c d subs args ok aok h
+  obtain ⟨r, h1, _, _, h4, h5, _, _⟩ := send_eq_spec hs m c d subs args ok aok h
   refine ⟨r, h1, ?_, ?_⟩
   · rw [h5]; simp [specBody, hv]
   · rw [h4]; simp [specQuery, hv]
 
 /-- the context attached to the request is the caller's (the method's context argument), and the
     background context when the method has no context parameter -/
-theorem C06_ctx (hs : List (String × String)) (anyCtx : Bool) (m : MethodSpec)
+theorem C06_ctx (hs : List (String × String)) (m : MethodSpec)
     (c : Cooked) (d : PathDir) (subs : List PathSub) (args : Args)
     (ok : MethodOK m) (aok : ArgsOK m args) (h : CookedFor m c d subs) :
-    ∃ r, send (planOf hs anyCtx m.name c d subs) args = .sent r ∧ r.ctx = specCtx m args := by
-  obtain ⟨r, h1, _, _, _, _, _, h7⟩ := send_eq_spec hs anyCtx m c d subs args ok aok h
+    ∃ r, send (planOf hs m.name c d subs) args = .sent r ∧ r.ctx = specCtx m args := by
+  obtain ⟨r, h1, _, _, _, _, _, h7⟩ := send_eq_spec hs m c d subs args ok aok h
   exact ⟨r, h1, h7⟩
 
 /-- exactly one request per call — for EVERY plan and EVERY argument vector the emitted method either
@@ -165,7 +165,7 @@ theorem C06_one_request (pl : Plan) (args : Args) :
 /-- every method of an interface the driver puts in region WF satisfies `MethodOK` -/
 theorem C06_wf_methodOK (i : IfaceSpec) (calls : List Call) (h : region i calls = "WF")
     (m : MethodSpec) (hm : m ∈ i.methods) : MethodOK m := by
-  obtain ⟨hs, _, _, _, htwo, hqual, _, _⟩ := region_wf i calls h
+  obtain ⟨hs, _, htwo, hqual, _, _⟩ := region_wf i calls h
   simp only [structOk, Bool.and_eq_true, List.all_eq_true] at hs
   have hmo := hs.1.1 m hm
   simp only [methodStructOk, Bool.and_eq_true, distinct, decide_eq_true_eq, List.all_eq_true,
@@ -210,7 +210,7 @@ theorem C06_wf_methodOK (i : IfaceSpec) (calls : List Call) (h : region i calls 
 theorem C06_wf_argsOK (i : IfaceSpec) (calls : List Call) (h : region i calls = "WF")
     (cl : Call) (hc : cl ∈ calls) (m : MethodSpec) (hm : findMethod i cl.method = some m) :
     ArgsOK m cl.args := by
-  obtain ⟨_, _, _, _, _, _, hnil, hbr⟩ := region_wf i calls h
+  obtain ⟨_, _, _, _, hnil, hbr⟩ := region_wf i calls h
   constructor
   · intro hv p hp hsp hfs v ha
     have : F_nilStructDeref i calls = true := by
@@ -239,23 +239,6 @@ section Witnesses
 
 def pCtx : Param := ⟨"ctx", .ctx, false⟩
 def pStr (n : String) : Param := ⟨n, .scalar, false⟩
-
-/-- Q1: `A(ctx, …)` next to `B()` -/
-def wMixedI : Iface := ⟨[], [⟨"A", "shoot: Get(\"/a\")\n".toList, [pCtx]⟩, ⟨"B", "shoot: Get(\"/b\")\n".toList, []⟩]⟩
-def wMixedS : IfaceSpec := ⟨[], [⟨"A", .get, "/a".toList, [], [pCtx]⟩, ⟨"B", .get, "/b".toList, [], []⟩]⟩
-
-theorem C06_F_mixedCtx_witness :
-    region wMixedS [] = "F_mixedCtx" ∧ generate wMixedI = .formatError := by decide
-
-/-- Q2: `//shoot: Post("/a/{id}")  A(ctx, id string)` -/
-def wPostI : Iface := ⟨[], [⟨"A", "shoot: Post(\"/a/{id}\")\n".toList, [pCtx, pStr "id"]⟩]⟩
-def wPostS : IfaceSpec := ⟨[], [⟨"A", .post, "/a/{id}".toList, [], [pCtx, pStr "id"]⟩]⟩
-
-theorem C06_F_bodyNoStruct_witness :
-    region wPostS [] = "F_bodyNoStruct" ∧ (generate wPostI).failsToCompile = true ∧
-    callModel wPostI "A" [("id", .scalar (.txt ['7']))] = none ∧
-    (callSpec wPostS "A" [("id", .scalar (.txt ['7']))]).isSome = true := by
-  decide
 
 /-- Q5: `A(ctx, m *map[string]string)` on GET -/
 def wPtrDictI : Iface := ⟨[], [⟨"A", "shoot: Get(\"/a\")\n".toList, [pCtx, ⟨"m", .dict, true⟩]⟩]⟩
@@ -336,6 +319,16 @@ example : callModel ⟨"shoot: headers={X-Env:test}\n".toList,
     = some (.sent ⟨"GET", "/users/a b/x".toList,
         some [("name", "x".toList), ("n", "5".toList), ("k", "v".toList)], none,
         [("Accept", "application/json"), ("X-Env", "test")], some "t1"⟩) := by decide
+
+/-! the two repaired shapes (formerly F_mixedCtx, F_bodyNoStruct) are ordinary WF inputs now -/
+example :
+    let i : Iface := ⟨[], [⟨"A", "shoot: Get(\"/a\")\n".toList, [pCtx]⟩, ⟨"B", "shoot: Post(\"/b/{id}\")\n".toList, [pStr "id"]⟩]⟩
+    let s : IfaceSpec := ⟨[], [⟨"A", .get, "/a".toList, [], [pCtx]⟩, ⟨"B", .post, "/b/{id}".toList, [], [pStr "id"]⟩]⟩
+    let args : Args := [("id", .scalar (.txt ['7']))]
+    region s [⟨"B", args⟩] = "WF" ∧
+    callModel i "B" args = some (.sent ⟨"POST", "/b/7".toList, none, none,
+      [("Accept", "application/json"), ("Content-Type", "application/json")], none⟩) ∧
+    (callSpec s "B" args).bind Outcome.path? = some "/b/7".toList := by decide
 
 /-! non-vacuity of the recogniser theorems -/
 example : parsePath ("shoot: Get(\"/users/{id}\")\nshoot: alias={userID:id}\n".toList)
